@@ -650,3 +650,285 @@ pub fn world_b_spoof(property: &str, scenario: &str, seed: u64, run: u64, thorou
     plan.sort();
     plan
 }
+
+/// C09: queue data, then disconnect() / disconnect_now() from either side, with faults on
+/// everything and (often) a total blackout right after the call.
+pub fn world_b_disconnect(property: &str, scenario: &str, seed: u64, run: u64, thorough: bool) -> Plan {
+    let mut r = Rng::keyed(&[seed, crate::rng::str_key(property), crate::rng::str_key(scenario), run]);
+    let mut plan = Plan::new(property, scenario, seed, run);
+    plan.fate_seed = Some(key(&[seed, run, 0xfa7e]));
+    let n_clients = r.range(1, 2) as usize;
+    let mut scfg = sample_cfg(&mut r);
+    scfg.active_timeout_ms = *r.pick(&[2000u64, 5000, 10_000, 20_000]);
+    scfg.max_packet_size = scfg.max_packet_size.min(20_000);
+    let base_server = scfg.clone();
+    let topo = topology(&mut plan, &mut r, n_clients, 0, scfg, 64, 32, |r, _| {
+        let mut c = sample_cfg(r);
+        c.active_timeout_ms = *r.pick(&[2000u64, 5000, 10_000, 20_000]);
+        let mut s = base_server.clone();
+        make_compatible(&mut c, &mut s);
+        c.max_packet_size = c.max_packet_size.min(base_server.max_receive_alloc).min(20_000);
+        c.max_receive_alloc = c.max_receive_alloc.max(base_server.max_packet_size);
+        c
+    });
+    for e in plan.endpoints.iter_mut() {
+        e.clock_ppm = 1_000_000;
+    }
+    plan.push(0, 0, Op::Create { ep: 0 });
+    let latency = sample_latency(&mut r).min(100_000);
+    // connect on a clean link, then faults
+    plan.push(0, 2, Op::Link { from: None, to: None, rule: clean_rule(latency) });
+    let t_fault = r.range(500_000, 2_000_000);
+    let mut rule = faulty_rule(&mut r, latency, true);
+    rule.drop_p = rule.drop_p.min(0.2);
+    if r.chance(0.5) {
+        rule.drop_types = *r.pick(&[0b110000u32, 0b010000, 0b100000, 1 << 12, 1 << 10]);
+        rule.drop_types_p = *r.pick(&[0.3, 0.6, 0.9]);
+    }
+    plan.push(t_fault, 2, Op::Link { from: None, to: None, rule });
+    let t_call = r.range(2_000_000, if thorough { 20_000_000 } else { 10_000_000 });
+    let horizon = t_call + 90_000_000;
+    let mut tag = 0u32;
+    let period = r.range(5_000, 100_000);
+    for &c in topo.clients.iter() {
+        plan.push(r.below(100_000), 1, Op::Create { ep: c });
+        let caller_is_client = r.chance(0.5);
+        let (caller, caller_to, other, other_to) = if caller_is_client { (c, None, 0usize, Some(c)) } else { (0usize, Some(c), c, None) };
+        // queued data at the time of the call: 0..200 packets of mixed modes
+        let n = *r.pick(&[0u64, 1, 5, 30, 200]);
+        for _ in 0..n {
+            let t = if r.chance(0.5) { t_call - r.below(200_000) } else { r.range(1_000_000, t_call) };
+            plan.push(t, 0x4000_0000 + tag, Op::Send { ep: caller, to: caller_to, ch: r.below(4) as u8, mode: r.below(4) as u8, len: r.range(12, 4000) as u32, tag });
+            tag += 1;
+        }
+        for _ in 0..r.range(0, 20) {
+            let t = r.range(1_000_000, t_call + 5_000_000);
+            plan.push(t, 0x4000_0000 + tag, Op::Send { ep: other, to: other_to, ch: r.below(4) as u8, mode: r.below(4) as u8, len: r.range(12, 2000) as u32, tag });
+            tag += 1;
+        }
+        if r.chance(0.7) {
+            plan.push(t_call, 0x6000_0000, Op::Disconnect { ep: caller, to: caller_to });
+        } else {
+            plan.push(t_call, 0x6000_0000, Op::DisconnectNow { ep: caller, to: caller_to });
+        }
+        if r.chance(0.15) {
+            // crossing disconnects: no flush claim then
+            plan.push(t_call + r.below(2_000_000), 0x6000_0001, Op::Disconnect { ep: other, to: other_to });
+        }
+        plan.push(r.below(period), r.u32() | 1, Op::StepEvery { ep: c, period_us: period, until_us: horizon });
+    }
+    plan.push(r.below(period), r.u32() | 1, Op::StepEvery { ep: 0, period_us: r.range(5_000, 100_000), until_us: horizon });
+    // what happens after the call: nothing special, total blackout (maybe healing), or clean
+    match r.below(4) {
+        0 => {
+            let t_b = t_call + r.below(3_000_000);
+            let mut b = clean_rule(latency);
+            b.blackout = true;
+            plan.push(t_b, 2, Op::Link { from: None, to: None, rule: b });
+            if r.chance(0.5) {
+                plan.push(t_b + r.range(1_000_000, 30_000_000), 2, Op::Link { from: None, to: None, rule: clean_rule(latency) });
+            }
+        }
+        1 => {
+            // one direction only
+            let mut b = clean_rule(latency);
+            b.blackout = true;
+            let c = topo.clients[0];
+            if r.chance(0.5) {
+                plan.push(t_call + r.below(3_000_000), 2, Op::Link { from: Some(c), to: Some(0), rule: b });
+            } else {
+                plan.push(t_call + r.below(3_000_000), 2, Op::Link { from: Some(0), to: Some(c), rule: b });
+            }
+        }
+        2 => plan.push(t_call + r.below(1_000_000), 2, Op::Link { from: None, to: None, rule: clean_rule(latency) }),
+        _ => (),
+    }
+    plan.params.insert("short_ch".into(), 63.0);
+    plan.params.insert("fair_after_heal".into(), 0.0);
+    plan.end_us = horizon;
+    plan.sort();
+    plan
+}
+
+/// C10 (a): silence timeouts with lost handshake legs, blackouts, skewed and jumping clocks.
+pub fn world_b_silence(property: &str, scenario: &str, seed: u64, run: u64, thorough: bool) -> Plan {
+    let mut r = Rng::keyed(&[seed, crate::rng::str_key(property), crate::rng::str_key(scenario), run]);
+    let mut plan = Plan::new(property, scenario, seed, run);
+    plan.fate_seed = Some(key(&[seed, run, 0xfa7e]));
+    let n_clients = r.range(1, 2) as usize;
+    let timeouts = [200u64, 500, 1000, 3000, 8000, 20_000, 60_000];
+    let mut scfg = EndpointCfg::default();
+    scfg.active_timeout_ms = *r.pick(&timeouts);
+    scfg.keepalive = r.chance(0.6);
+    scfg.keepalive_interval_ms = r.log_range(100, 30_000);
+    let topo = topology(&mut plan, &mut r, n_clients, 0, scfg, 64, 32, |r, _| {
+        let mut c = EndpointCfg::default();
+        c.active_timeout_ms = *r.pick(&[200u64, 500, 1000, 3000, 8000, 20_000, 60_000]);
+        c.keepalive = r.chance(0.6);
+        c.keepalive_interval_ms = r.log_range(100, 30_000);
+        c
+    });
+    plan.push(0, 0, Op::Create { ep: 0 });
+    let latency = sample_latency(&mut r).min(100_000);
+    plan.push(0, 2, Op::Link { from: None, to: None, rule: clean_rule(latency) });
+    let horizon = r.range(30, if thorough { 120 } else { 70 }) * 1_000_000;
+    // swept: the handshake loses its first k SYNs (even runs) or SYN-ACKs (odd runs), k = 0..10
+    let k = (run / 2) % 11;
+    let mut tag = 0u32;
+    for &c in topo.clients.iter() {
+        let t_create = r.below(1_000_000);
+        plan.push(t_create, 1, Op::Create { ep: c });
+        let (link, _what) = if run % 2 == 0 { (format!("{}>{}", c, 0), "syn") } else { (format!("{}>{}", 0, c), "synack") };
+        let m = plan.fates.entry(link).or_default();
+        for ord in 0..k {
+            m.insert(ord, Fate::dropped());
+        }
+        // busy or idle connection
+        if r.chance(0.5) {
+            for _ in 0..r.range(1, 100) {
+                let t = r.range(t_create, horizon);
+                let (ep, to) = if r.chance(0.5) { (c, None) } else { (0, Some(c)) };
+                plan.push(t, 0x4000_0000 + tag, Op::Send { ep, to, ch: 0, mode: r.below(4) as u8, len: r.range(12, 1500) as u32, tag });
+                tag += 1;
+            }
+        }
+        let cad = Cadence { period_us: *r.pick(&[1_000u64, 10_000, 30_000, 100_000, 400_000]), jitter: r.f64(), stall_p: if r.chance(0.3) { 0.005 } else { 0.0 }, stall_max_us: 5_000_000, flush_after_step_p: 0.1 };
+        cad.steps(&mut r, &mut plan, c, t_create, horizon, 20_000, true);
+        if r.chance(0.3) {
+            for _ in 0..r.range(1, 4) {
+                plan.push(r.range(t_create, horizon), r.u32() | 1, Op::ClockJump { ep: c, us: r.log_range(100_000, 5_000_000) });
+            }
+        }
+    }
+    let cad = Cadence { period_us: *r.pick(&[1_000u64, 10_000, 30_000, 100_000, 400_000]), jitter: r.f64(), stall_p: if r.chance(0.3) { 0.005 } else { 0.0 }, stall_max_us: 5_000_000, flush_after_step_p: 0.1 };
+    cad.steps(&mut r, &mut plan, 0, 0, horizon, 30_000, true);
+    if r.chance(0.3) {
+        plan.push(r.range(0, horizon), r.u32() | 1, Op::ClockJump { ep: 0, us: r.log_range(100_000, 5_000_000) });
+    }
+    // blackouts (one or both directions) around the timeout length
+    let mut t = r.range(2_000_000, 30_000_000);
+    for _ in 0..r.range(0, 3) {
+        let len = r.log_range(100_000, 70_000_000);
+        let mut b = clean_rule(latency);
+        b.blackout = true;
+        let c = topo.clients[0];
+        let (from, to) = match r.below(3) {
+            0 => (None, None),
+            1 => (Some(c), Some(0usize)),
+            _ => (Some(0usize), Some(c)),
+        };
+        plan.push(t, 2, Op::Link { from, to, rule: b });
+        plan.push(t + len, 2, Op::Link { from, to, rule: clean_rule(latency) });
+        t += len + r.range(1_000_000, 20_000_000);
+        if t >= horizon {
+            break;
+        }
+    }
+    plan.end_us = horizon;
+    plan.sort();
+    plan
+}
+
+/// C10 (b): idle connection with keepalive on a loss-free network for hours.
+pub fn world_b_idle(property: &str, scenario: &str, seed: u64, run: u64, thorough: bool) -> Plan {
+    let mut r = Rng::keyed(&[seed, crate::rng::str_key(property), crate::rng::str_key(scenario), run]);
+    let mut plan = Plan::new(property, scenario, seed, run);
+    plan.fate_seed = Some(key(&[seed, run, 0xfa7e]));
+    let latency = r.range(100, 100_000);
+    let period_c = r.range(10_000, 200_000);
+    let period_s = r.range(10_000, 200_000);
+    let interval = r.log_range(100, 30_000);
+    // the documented floor on keepalive spacing: max(interval, 2 s, RTO) - RTO is 600 ms while no
+    // data has been sent - plus a round trip and two step periods must fit inside the timeout
+    let spacing = interval.max(2000) + 2 * latency / 1000 + 2 * (period_c.max(period_s) / 1000);
+    let timeout = (spacing as f64 * (1.25 + r.f64() * 3.0)) as u64 + 50;
+    let mut cfg = EndpointCfg::default();
+    cfg.keepalive = true;
+    cfg.keepalive_interval_ms = interval;
+    cfg.active_timeout_ms = timeout;
+    let cc = cfg.clone();
+    let topo = topology(&mut plan, &mut r, 1, 0, cfg, 64, 32, move |_, _| cc.clone());
+    for e in plan.endpoints.iter_mut() {
+        e.clock_ppm = 1_000_000;
+    }
+    plan.push(0, 0, Op::Create { ep: 0 });
+    plan.push(0, 2, Op::Link { from: None, to: None, rule: clean_rule(latency) });
+    let c = topo.clients[0];
+    plan.push(1000, 1, Op::Create { ep: c });
+    let hours = r.range(1, if thorough { 6 } else { 2 });
+    let horizon = hours * 3_600_000_000;
+    plan.push(2000, 3, Op::StepEvery { ep: c, period_us: period_c, until_us: horizon });
+    plan.push(2500, 3, Op::StepEvery { ep: 0, period_us: period_s, until_us: horizon });
+    // a little traffic at the very beginning in some runs, then silence
+    if r.chance(0.5) {
+        for tag in 0..r.range(1, 10) as u32 {
+            plan.push(r.range(500_000, 5_000_000), 0x4000_0000 + tag, Op::Send { ep: c, to: None, ch: 0, mode: MODE_RELIABLE, len: 100, tag });
+        }
+    }
+    plan.params.insert("expect_no_timeout".into(), 1.0);
+    plan.end_us = horizon;
+    plan.sort();
+    plan
+}
+
+/// C10 (c): retry budgets of unanswered handshakes and disconnects.
+pub fn world_b_retry(property: &str, scenario: &str, seed: u64, run: u64, _thorough: bool) -> Plan {
+    let mut r = Rng::keyed(&[seed, crate::rng::str_key(property), crate::rng::str_key(scenario), run]);
+    let mut plan = Plan::new(property, scenario, seed, run);
+    plan.fate_seed = Some(key(&[seed, run, 0xfa7e]));
+    let mut cfg = EndpointCfg::default();
+    cfg.active_timeout_ms = 60_000;
+    let cc = cfg.clone();
+    let topo = topology(&mut plan, &mut r, 1, 0, cfg, 64, 32, move |_, _| cc.clone());
+    let c = topo.clients[0];
+    let latency = r.range(100, 50_000);
+    plan.push(0, 2, Op::Link { from: None, to: None, rule: clean_rule(latency) });
+    let period_c = *r.pick(&[1_000u64, 10_000, 50_000, 200_000, 700_000]);
+    let period_s = *r.pick(&[1_000u64, 10_000, 50_000, 200_000]);
+    let horizon = 80_000_000;
+    plan.params.insert("check_retry_budgets".into(), 1.0);
+    match run % 3 {
+        0 => {
+            // nobody answers: the server does not exist, or nothing gets through
+            if r.chance(0.5) {
+                plan.push(0, 0, Op::Create { ep: 0 });
+                let mut b = clean_rule(latency);
+                b.blackout = true;
+                plan.push(0, 3, Op::Link { from: None, to: None, rule: b });
+                plan.push(100, 3, Op::StepEvery { ep: 0, period_us: period_s, until_us: horizon });
+            }
+            plan.push(r.below(1_000_000), 1, Op::Create { ep: c });
+            plan.params.insert(format!("unanswered_ep{}", c), 1.0);
+        }
+        1 => {
+            // the server answers but its SYN-ACKs never arrive
+            plan.push(0, 0, Op::Create { ep: 0 });
+            let mut b = clean_rule(latency);
+            b.blackout = true;
+            plan.push(0, 3, Op::Link { from: Some(0), to: Some(c), rule: b });
+            plan.push(100, 3, Op::StepEvery { ep: 0, period_us: period_s, until_us: horizon });
+            plan.push(r.below(1_000_000), 1, Op::Create { ep: c });
+            plan.params.insert(format!("unanswered_ep{}", c), 1.0);
+        }
+        _ => {
+            // established, then blackout, then disconnect into the void
+            plan.push(0, 0, Op::Create { ep: 0 });
+            plan.push(100, 3, Op::StepEvery { ep: 0, period_us: period_s, until_us: horizon });
+            plan.push(1000, 1, Op::Create { ep: c });
+            let t_b = r.range(2_000_000, 6_000_000);
+            let mut b = clean_rule(latency);
+            b.blackout = true;
+            plan.push(t_b, 3, Op::Link { from: None, to: None, rule: b });
+            let t_call = t_b + r.below(3_000_000);
+            if r.chance(0.5) {
+                plan.push(t_call, 0x6000_0000, Op::DisconnectNow { ep: c, to: None });
+            } else {
+                plan.push(t_call, 0x6000_0000, Op::DisconnectNow { ep: 0, to: Some(c) });
+            }
+        }
+    }
+    plan.push(1_000_000 + r.below(period_c), 3, Op::StepEvery { ep: c, period_us: period_c, until_us: horizon });
+    plan.end_us = horizon;
+    plan.sort();
+    plan
+}
